@@ -113,7 +113,12 @@ void c10_case(Tape& t, Ctx& ctx) {
         SplineCase<D> nw = c; nw.N = cur.N;
         if (nw.T.size() != cur.T.size()) { nw.s = S; gen_durations(t, nw.N, wellscaled_ratio(S), nw.T, &nw.sigma, &nw.ratio, &nw.dur_shape, &nw.shape); gen_data(t, nw); }
         c = cur;
-        switch (t.range(0, 2)) {
+        int ing = t.range(0, 4);
+        if (ing == 3 && cur.N >= 2) {   // truncated: the last one or two segments dropped, everything kept is bit-equal
+          int drop = (cur.N >= 3 && t.flag()) ? 2 : 1;
+          c.N = cur.N - drop; c.T.resize(c.N); c.P.conservativeResize(c.N + 1, D);
+        } else if (ing == 4) c = extend_case(t, cur, 1 + t.range(0, 1));   // extended by one or two segments
+        else switch (ing % 3) {
           case 0: c.bc = nw.bc; if (t.chance(1, 3)) { c.bc = cur.bc; c.bc_field(t.flag(), t.range(1, 3))(t.range(0, D - 1)) += 0.5 / std::max(cur.sigma, 1e-3); } break;
           case 1: c.P = nw.P; if (t.chance(1, 3)) { c.P = cur.P; c.P(t.range(0, cur.N), t.range(0, D - 1)) += 0.25; } break;
           default: { c.T = nw.T; c.sigma = nw.sigma; c.ratio = nw.ratio; c.dur_shape = nw.dur_shape; c.shape = nw.shape;
